@@ -639,6 +639,8 @@ fn map_size(len: usize, is_array_element: &IsArrayElement) -> Result<usize, usiz
 #[derive(Debug)]
 pub struct TupleStructSerializer<'a> {
     field_role: FieldRole,
+    /// Size of the descriptor; it precedes the list header and is not part of the list body
+    descriptor_size: usize,
     cumulated_size: usize,
     se: &'a mut SizeSerializer,
 }
@@ -646,6 +648,7 @@ pub struct TupleStructSerializer<'a> {
 impl<'a> TupleStructSerializer<'a> {
     fn descriptor(se: &'a mut SizeSerializer) -> Self {
         Self {
+            descriptor_size: 0,
             cumulated_size: 0,
             field_role: FieldRole::Descriptor,
             se,
@@ -654,6 +657,7 @@ impl<'a> TupleStructSerializer<'a> {
 
     fn fields(se: &'a mut SizeSerializer) -> Self {
         Self {
+            descriptor_size: 0,
             cumulated_size: 0,
             field_role: FieldRole::Fields,
             se,
@@ -673,7 +677,7 @@ impl ser::SerializeTupleStruct for TupleStructSerializer<'_> {
             FieldRole::Descriptor => {
                 self.field_role = FieldRole::Fields;
                 let mut serializer = SizeSerializer::new();
-                self.cumulated_size += value.serialize(&mut serializer)?;
+                self.descriptor_size += value.serialize(&mut serializer)?;
                 Ok(())
             }
             FieldRole::Fields => match self.se.struct_encoding() {
@@ -708,11 +712,12 @@ impl ser::SerializeTupleStruct for TupleStructSerializer<'_> {
             StructEncoding::DescribedList => {
                 let _ = self.se.struct_encoding.pop();
                 list_size(self.cumulated_size, &self.se.is_array_element)
+                    .map(|size| self.descriptor_size + size)
                     .map_err(|_| Error::too_long())
             }
             StructEncoding::DescribedBasic => {
                 let _ = self.se.struct_encoding.pop();
-                Ok(self.cumulated_size)
+                Ok(self.descriptor_size + self.cumulated_size)
             }
             StructEncoding::DescribedMap => {
                 unreachable!("TupleStructSerializer is NOT used for DescribedMap")
@@ -724,6 +729,8 @@ impl ser::SerializeTupleStruct for TupleStructSerializer<'_> {
 /// SeqSerializer that calculates the size of serialized data without actually allocating `Vec<u8>`
 #[derive(Debug)]
 pub struct StructSerializer<'a> {
+    /// Size of the descriptor; it precedes the list / map header and is not part of the body
+    descriptor_size: usize,
     cumulated_size: usize,
     se: &'a mut SizeSerializer,
 }
@@ -731,6 +738,7 @@ pub struct StructSerializer<'a> {
 impl<'a> StructSerializer<'a> {
     fn new(se: &'a mut SizeSerializer) -> Self {
         Self {
+            descriptor_size: 0,
             cumulated_size: 0,
             se,
         }
@@ -748,7 +756,7 @@ impl ser::SerializeStruct for StructSerializer<'_> {
         use ser::Serialize;
 
         if key == DESCRIPTOR {
-            self.cumulated_size += value.serialize(&mut *self.se)?;
+            self.descriptor_size += value.serialize(&mut *self.se)?;
             Ok(())
         } else {
             match self.se.struct_encoding() {
@@ -785,16 +793,18 @@ impl ser::SerializeStruct for StructSerializer<'_> {
             StructEncoding::DescribedList => {
                 let _ = self.se.struct_encoding.pop();
                 list_size(self.cumulated_size, &self.se.is_array_element)
+                    .map(|size| self.descriptor_size + size)
                     .map_err(|_| Error::too_long())
             }
             StructEncoding::DescribedMap => {
                 let _ = self.se.struct_encoding.pop();
                 map_size(self.cumulated_size, &self.se.is_array_element)
+                    .map(|size| self.descriptor_size + size)
                     .map_err(|_| Error::too_long())
             }
             StructEncoding::DescribedBasic => {
                 let _ = self.se.struct_encoding.pop();
-                Ok(self.cumulated_size)
+                Ok(self.descriptor_size + self.cumulated_size)
             }
         }
     }
